@@ -109,6 +109,12 @@ func dstClass(it *absint.Interp) (class string, oversize bool) {
 func hashEntry(p *load.Prog, r *report.Report, prop string, fn *ssa.Function, cfg absint.Config, reset func(), onAbort func(res *absint.PathResult, construct string) bool, visit func(res *absint.PathResult, class string, oversize bool)) {
 	pos := p.Pos(fn.Pos())
 	classes := map[string]int{}
+	poolBad := 0
+	defer func() {
+		if poolBad == 0 {
+			r.OK(prop+".poolstate", fn.Name(), "no path (returning or panicking) puts a nil pointer into a shared pool")
+		}
+	}()
 	explore(p, cfg, fn, func(it *absint.Interp) []absint.Value {
 		if reset != nil {
 			reset()
@@ -118,6 +124,10 @@ func hashEntry(p *load.Prog, r *report.Report, prop string, fn *ssa.Function, cf
 		class, oversize := dstClass(res.It)
 		classes[class]++
 		construct := fn.Name() + " (" + class + ")"
+		for _, e := range eventsOf(res, "pool-nil") {
+			poolBad++
+			r.Fail(prop+".poolstate", construct, p.Pos(e.Pos), "this call leaves shared state behind that makes a later call fail: "+e.Msg)
+		}
 		if class == "empty DST" {
 			r.Check(res.Exit == "panic", prop+".emptydst", construct, pos, "panics before any hashing", "an empty DST does not panic")
 			if res.Exit == "panic" {
